@@ -1,5 +1,6 @@
 import CfbVerif.Spec.Consts
 import CfbVerif.Raw.Safe
+import CfbVerif.Raw.ReadSafe
 /-!
 # C05 — reading arbitrary bytes never panics, hangs or exhausts memory
 
@@ -89,7 +90,45 @@ theorem C05_chain_walk_total (fat : Array Nat) (h : checkPointees fat 0 [] = .ok
 theorem C05_validate_dir_total (m : Mode) (dir : Array DirEntry) : (validateDir m dir).Safe :=
   safe_validateDir m dir
 
+/-- **after `open`, every read-only call is total**: on the tables a successful open returned — for
+any byte string, in both modes — the walk, every path lookup, every `read_data_from_stream` at any
+offset and length on any directory entry, and `read_to_end` through a fresh handle end in `Ok` or
+an error value: no unchecked index is out of range, every loop ends within its fuel -/
+theorem C05_reads_total (m : Mode) (img : Img) (r : RawState) (ho : openImg m img = .ok r) :
+    (walk r).Safe ∧
+    (∀ names : List Names.Name, (lookup r names Gen.ROOT_STREAM_ID).Safe) ∧
+    (∀ (e : DirEntry) (off n : Nat), (readData r img e off n).Safe) ∧
+    (∀ e : DirEntry, (readAll r img e).Safe) := by
+  have o := opened_of_open ho
+  obtain ⟨V, tr⟩ := dirTree_of_validateDir o.dir
+  exact ⟨safe_walk tr, fun names => (safe_lookup tr names _ tr.root).1,
+    fun e off n => safe_readData o img e off n, fun e => safe_readAll o img e⟩
+
+/-- what `Directory::validate` establishes, for every directory table it accepts: the reachable
+entries form a tree — listed without repetition, every link leads to an entry listed earlier
+(`DirTree.fwd`: no cycle) and the link targets are exactly the listed entries other than the root
+(`DirTree.perm`: no entry has two parents) -/
+theorem C05_validated_directory_is_a_tree (m : Mode) (dir : Array DirEntry) (h : validateDir m dir = .ok ()) :
+    ∃ V, DirTree dir V := dirTree_of_validateDir h
+
+/-- a lookup only ever returns an entry of that tree -/
+theorem C05_lookup_in_tree (m : Mode) (r : RawState) (h : validateDir m r.dir = .ok ()) :
+    ∃ V, DirTree r.dir V ∧ ∀ names c, lookup r names Gen.ROOT_STREAM_ID = .ok (some c) → c ∈ V := by
+  obtain ⟨V, tr⟩ := dirTree_of_validateDir h
+  exact ⟨V, tr, fun names c hc => (safe_lookup tr names _ tr.root).2 c hc⟩
+
 /-! ### the exits exist (the theorem is not vacuous): with the guards removed the model does hang -/
 example : chainLoop #[0] 7 2 0 [] = .hang "chain walk" := by rfl
+
+/-- the premise is met: a two-entry directory (root with one child storage) passes the DFS, and a
+directory whose child link points back at the root does not -/
+def exEntry (objType child : Nat) : DirEntry :=
+  { name := [65], objType := objType, red := false, left := NOSTREAM, right := NOSTREAM, child := child,
+    clsid := [], stateBits := 0, ctime := 0, mtime := 0, startSector := END, streamLen := 0 }
+
+example : validateDir .strict #[exEntry Gen.OBJ_TYPE_ROOT 1, exEntry Gen.OBJ_TYPE_STORAGE NOSTREAM] = .ok () := by rfl
+example : (match validateDir .strict #[exEntry Gen.OBJ_TYPE_ROOT 1, exEntry Gen.OBJ_TYPE_STORAGE 0] with
+    | .ok _ => true
+    | _ => false) = false := by rfl
 
 end CfbVerif.Props.C05
